@@ -30,7 +30,7 @@ func init() {
 		for _, id := range ids {
 			c, _ := hlib.BufPipe()
 			uc := tls.UClient(c, &tls.Config{ServerName: "probe.example", OmitEmptyPsk: true}, id)
-			ent := map[string]any{"kinds": []string{}, "groups": []int{}, "shares": []int{}}
+			ent := map[string]any{"kinds": []string{}, "groups": []int{}, "shares": []int{}, "suites": []int{}}
 			if err := uc.BuildHandshakeState(); err != nil {
 				return fmt.Errorf("%s: BuildHandshakeState: %w", id.Str(), err)
 			}
@@ -45,6 +45,7 @@ func init() {
 			ent["kinds"] = kinds
 			if h := uc.HandshakeState.Hello; h != nil {
 				ent["groups"] = hlib.U16s(h.SupportedCurves)
+				ent["suites"] = hlib.U16s(h.CipherSuites)
 				sh := []int{}
 				for _, k := range h.KeyShares {
 					sh = append(sh, int(k.Group))
@@ -75,6 +76,7 @@ type echScn struct {
 	MaxLen  int    `json:"maxlen"`  // maximum_name_length
 	Server  string `json:"server"`  // accept | hrr | reject | reject_hrr | noech
 	HRRGrp  int    `json:"hrr_group"`
+	Suite   int    `json:"suite"`  // TLS 1.3 cipher suite the server selects (hook ForceSuite13); 0 = its own choice
 	Cookie  int    `json:"cookie"` // length of the cookie the HelloRetryRequest carries (0 = none)
 	NRetry  int    `json:"nretry"` // rejecting server: number of its configs flagged SendAsRetry (it has one more that is not)
 	Cert    string `json:"cert"`   // sn | pub | both | neither : names the server's certificate is valid for
@@ -274,7 +276,8 @@ func runECH(s *echScn, raw json.RawMessage, store *certStore) []map[string]any {
 		}
 	}
 	tls.VerifSetOverride(scfg, &tls.VerifOverride{
-		HRRCookie: hrrCookie,
+		HRRCookie:    hrrCookie,
+		ForceSuite13: uint16(s.Suite),
 		Emit: func(ev string, data []byte) {
 			add(map[string]any{"ev": "H9", "what": ev, "raw": hlib.Ints(data)})
 		},
@@ -352,7 +355,7 @@ func runECH(s *echScn, raw json.RawMessage, store *certStore) []map[string]any {
 		res["retry"] = hlib.Ints(rej.RetryConfigList)
 	}
 	state := func(cs tls.ConnectionState) map[string]any {
-		return map[string]any{"ech": cs.ECHAccepted, "sni": hlib.Ints([]byte(cs.ServerName)), "complete": cs.HandshakeComplete, "version": int(cs.Version)}
+		return map[string]any{"ech": cs.ECHAccepted, "sni": hlib.Ints([]byte(cs.ServerName)), "complete": cs.HandshakeComplete, "version": int(cs.Version), "suite": int(cs.CipherSuite)}
 	}
 	func() {
 		defer func() {
